@@ -40,6 +40,10 @@ def gen_case(rng, tier, avoid):
                               width=None if rng.random() < 0.6 else 2)
     units = rng.choice([None, None, 'm', 'ft', 's'])
     ckw = {'units': units} if units else {}
+    if indexed and rc['dtype'][1] == 'u' and rng.random() < 0.25:
+        # unsigned source data declared with a signed or float cast: the index characteristics are those of the VALUES written
+        ckw['cast_dtype'] = gen.cast_literal(rng, {'u1': ['int16', 'float32'], 'u2': ['int32', 'float64'], 'u4': ['float64', 'int64x']}[
+            rc['dtype'][1:]][0 if rng.random() < 0.6 else 1].replace('int64x', 'float64'))
     c0 = spec.channel(lfi, 'IDX', rc, **ckw)
     c1 = spec.channel(lfi, 'VAL', gen.array_recipe(rng, rows, dtype='f8', width=rng.choice([None, 2])))
     fkw = {}
